@@ -409,6 +409,169 @@ impl Observer {
         }
     }
 
+    /// C05 (cluster monitor): every correct node's own votes, in the order it broadcast them, obey
+    /// the voting rules. Conditions that depend on what had reached the node are checked in their
+    /// necessary form against everything that was on the wire by then (sound, not complete).
+    pub fn check_vote_rules(&self, stakes: &[u64]) {
+        use crate::model::{self, VK, ValVotes, Verdict};
+        let total: u64 = stakes.iter().sum();
+        let mut intern: BTreeMap<BlockHash, u64> = BTreeMap::new();
+        fn tag_of(intern: &mut BTreeMap<BlockHash, u64>, h: &BlockHash) -> u64 {
+            let n = intern.len() as u64 + 1;
+            *intern.entry(h.clone()).or_insert(n)
+        }
+        // all votes on the wire in global order (for the stake-on-the-wire bounds)
+        let mut all: Vec<(u64, usize, &SeenVote)> = Vec::new();
+        for (v, vs) in self.votes_by_node.iter().enumerate() {
+            for sv in vs {
+                all.push((sv.seq, v, sv));
+            }
+        }
+        all.sort_by_key(|x| x.0);
+        for i in 0..self.n {
+            if !self.correct[i] {
+                continue;
+            }
+            let mut st: BTreeMap<Slot, ValVotes> = BTreeMap::new();
+            for sv in &self.votes_by_node[i] {
+                let kind = match sv.kind {
+                    "notar" => VK::Notar,
+                    "nf" => VK::NotarFallback,
+                    "skip" => VK::Skip,
+                    "sf" => VK::SkipFallback,
+                    _ => VK::Final,
+                };
+                let tag = match sv.hash.as_ref() {
+                    Some(h) => tag_of(&mut intern, h),
+                    None => 0,
+                };
+                let s = st.entry(sv.slot).or_default();
+                let slot = sv.slot;
+                match model::expected_verdict(s, kind, tag) {
+                    Verdict::Slashable(o) => {
+                        kernel::violation(
+                            "C05",
+                            format!("own-votes-slashable:{kind:?}"),
+                            format!("correct node {i} broadcast {kind:?} in slot {slot} after {s:?}: slashable combination {o:?}"),
+                        );
+                        continue;
+                    }
+                    Verdict::Duplicate => continue, // standstill recovery re-broadcasts own votes
+                    Verdict::Ok => {}
+                }
+                match kind {
+                    VK::Final => {
+                        match s.notar {
+                            None => kernel::violation("C05", "final-without-notar", format!("correct node {i} cast a finalize vote in slot {slot} without having notarized a block there")),
+                            Some(t) => {
+                                let h = intern.iter().find(|(_, v)| **v == t).map(|(h, _)| h.clone());
+                                let has_cert = h.as_ref().is_some_and(|h| self.first_cert.contains_key(&(CertKind::Notar, slot, Some(h.clone()))));
+                                if !has_cert {
+                                    kernel::violation(
+                                        "C05",
+                                        "final-without-notar-cert",
+                                        format!("correct node {i} cast a finalize vote in slot {slot} but no notarization certificate for the block it notarized ever existed"),
+                                    );
+                                }
+                            }
+                        }
+                        kernel::probe("c05_final_votes_checked");
+                    }
+                    VK::SkipFallback => {
+                        if s.notar.is_none() {
+                            kernel::violation("C05", "skip-fallback-without-notar", format!("correct node {i} cast skip-fallback in slot {slot} without having notarized a block there"));
+                        }
+                        // necessary: skip + notar stake on the wire (all blocks but the top one) >= 40 %
+                        let mut skip = 0u64;
+                        let mut notar: BTreeMap<BlockHash, u64> = BTreeMap::new();
+                        let mut seen: BTreeSet<(usize, &str)> = BTreeSet::new();
+                        for (seq, v, x) in &all {
+                            if *seq > sv.seq || x.slot != slot {
+                                continue;
+                            }
+                            if x.kind == "skip" && seen.insert((*v, "s")) {
+                                skip += stakes[*v];
+                            }
+                            if x.kind == "notar" && seen.insert((*v, "n")) {
+                                *notar.entry(x.hash.clone().unwrap()).or_insert(0) += stakes[*v];
+                            }
+                        }
+                        let top = notar.values().max().copied().unwrap_or(0);
+                        let sum: u64 = notar.values().sum();
+                        if (skip + sum - top) * 5 < total * 2 {
+                            kernel::violation(
+                                "C05",
+                                "skip-fallback-before-safe-to-skip",
+                                format!("correct node {i} cast skip-fallback in slot {slot} when at most {} of {total} stake (skip + non-top notar) had been voted anywhere", skip + sum - top),
+                            );
+                        }
+                        kernel::probe("c05_skip_fallback_votes_checked");
+                    }
+                    VK::NotarFallback => {
+                        if s.notar.is_none() && !s.skip {
+                            kernel::violation("C05", "notar-fallback-without-initial-vote", format!("correct node {i} cast notar-fallback in slot {slot} before any initial vote there"));
+                        }
+                        // necessary: notar stake for that block on the wire >= 20 %
+                        let h = sv.hash.clone().unwrap();
+                        let mut notar = 0u64;
+                        let mut seen: BTreeSet<usize> = BTreeSet::new();
+                        for (seq, v, x) in &all {
+                            if *seq <= sv.seq && x.slot == slot && x.kind == "notar" && x.hash.as_ref() == Some(&h) && seen.insert(*v) {
+                                notar += stakes[*v];
+                            }
+                        }
+                        if notar * 5 < total {
+                            kernel::violation(
+                                "C05",
+                                "notar-fallback-before-safe-to-notar",
+                                format!("correct node {i} cast notar-fallback for a block in slot {slot} that had only {notar} of {total} stake in notar votes anywhere"),
+                            );
+                        }
+                        kernel::probe("c05_notar_fallback_votes_checked");
+                    }
+                    VK::Notar => {
+                        let h = sv.hash.clone().unwrap();
+                        if let Some((ps, ph)) = self.parents.get(&(slot, h.clone())) {
+                            if slot.inner() % alpenglow::types::SLOTS_PER_WINDOW != 0 {
+                                // not the first slot of a window: parent = the block it notarized in the preceding slot
+                                let prev = Slot::new(slot.inner() - 1);
+                                let ok = *ps == prev
+                                    && (prev.is_genesis()
+                                        || st.get(&prev).and_then(|p| p.notar).is_some_and(|t| intern.iter().any(|(hh, v)| *v == t && hh == ph)));
+                                if !ok {
+                                    kernel::violation(
+                                        "C05",
+                                        "notar-with-unacceptable-parent",
+                                        format!("correct node {i} notarized a block in slot {slot} whose parent (slot {ps}) is not the block it notarized in slot {prev}"),
+                                    );
+                                }
+                            } else {
+                                // first slot of a window: parent must be certified (or genesis) and every slot between skip-certified
+                                let certified = ps.is_genesis()
+                                    || self.first_cert.keys().any(|(k, s2, h2)| {
+                                        matches!(k, CertKind::Notar | CertKind::NotarFallback | CertKind::FastFinal) && s2 == ps && h2.as_ref() == Some(ph)
+                                    })
+                                    || self.finalized.get(ps).is_some_and(|(fh, _, _)| fh == ph);
+                                let connected = (ps.inner() + 1..slot.inner())
+                                    .all(|x| self.skip_certified.contains_key(&Slot::new(x)) || self.implicitly_skipped.contains_key(&Slot::new(x)));
+                                if !certified || !connected {
+                                    kernel::violation(
+                                        "C05",
+                                        "notar-with-unready-parent",
+                                        format!("correct node {i} notarized a block in window-first slot {slot} whose parent in slot {ps} was never a ready parent (certified {certified}, skip-connected {connected})"),
+                                    );
+                                }
+                            }
+                            kernel::probe("c05_notar_votes_parent_checked");
+                        }
+                    }
+                    VK::Skip => {}
+                }
+                model::apply_vote(st.entry(slot).or_default(), kind, tag);
+            }
+        }
+    }
+
     /// Set of blocks (slot, hash) with a valid notar / notar-fallback / fast-final cert on the wire.
     pub fn certified_blocks(&self) -> BTreeSet<BlockId> {
         self.first_cert
